@@ -64,6 +64,7 @@ impl BusListener {
 //@item broker/src/broker/conn_state.rs struct ConnectionState
 
 impl ConnectionState {
+    //@include _shared/conn_state_specs.rs
     //@fn-from broker_conn_state broker/src/broker/conn_state.rs ConnectionState::remove_bus_listener
 
     // sending only pushes into the connection's outgoing queue (interior mutability); no broker state changes.
